@@ -98,6 +98,17 @@ def slot_of(ref, t):
 
 def check_state(rb, ref, queries=True):
     """Returns (clause, detail) of the first failed clause, or None."""
+    try:
+        return _check_state(rb, ref, queries)
+    except Exception as e:  # noqa: BLE001 - a query that raises on a consistent buffer is a failure of the buffer
+        import traceback
+
+        tb = traceback.extract_tb(e.__traceback__)
+        where = [f"{f.filename.split('/')[-1]}:{f.lineno}" for f in tb][-3:]
+        return ("query_does_not_raise", {"exception": repr(e), "where": where})
+
+
+def _check_state(rb, ref, queries=True):
     c = ref.content()
     valid = [k for k, v in c.items() if v is not None]
     P = ref.P
@@ -257,9 +268,14 @@ def bfs(args) -> Acc:
                         got_ok = True
                     except IndexError:
                         got_ok = False
+                    except Exception as exc:  # noqa: BLE001
+                        got_ok, crash = None, repr(exc)
                     h = hist + [(d, kind)]
                     case = {"capacity": cap, "period": period, "align": align, "container": container, "history": h, "unit_ms": unit_ms}
                     acc.clauses["old_updates_rejected_others_accepted"] += 1
+                    if got_ok is None:
+                        acc.violation(Violation("update_does_not_crash", case, {"exception": crash}))
+                        continue
                     if ok != got_ok:
                         acc.violation(Violation("old_updates_rejected_others_accepted", case,
                                                 {"expected_accepted": ok, "accepted": got_ok}))
